@@ -11,6 +11,7 @@ COMMON_TRUSTED = [
 
 # (file under coq/Gen, acra-vh arguments that print it): regenerated from /repo on every run
 GENERATORS = [
+    ("KsConsts.v", ["ksconsts"]),
     ("KeyStates.v", ["keystates"]),
     ("TokenConsts.v", ["tokenconsts"]),
     ("MaskConsts.v", ["maskconsts"]),
@@ -24,6 +25,46 @@ def dom(name, run_mod, nq, nt, model=True):
 
 
 PROPS = {
+    "C18": {
+        "domains": [
+            {
+                "name": "c18",
+                "run_vo": "Model/RunKeystore.vo",
+                "n_quick": 48,
+                "n_thorough": 300,
+                "model": True
+            }
+        ],
+        "trusted": [
+            "gob (v1) and DER (v2) serialisations are abstract in the model ([deser (ser l) = Some l] is a premise); the harness decodes the real bytes with Go's gob / acra's asn1 package",
+            "v2 importKeyRing/copyKey re-encryption and the v1-to-v2 migration are exercised by the harness oracle only"
+        ],
+        "assumptions": [
+            "Correct C; serialised key list and each key shorter than 2^32-1024 bytes and non-empty; nonces of 12 bytes",
+            "rejection theorems are reductions to an AEAD / MAC forgery witness",
+            "known finding v2-export-all-omits-private"
+        ]
+    },
+    "C07": {
+        "domains": [
+            {
+                "name": "c07",
+                "run_vo": "Model/RunKeystore.vo",
+                "n_quick": 30,
+                "n_thorough": 120,
+                "model": True
+            }
+        ],
+        "trusted": [
+            "modelled, not verified: DER encoding of key rings (decoded by the harness with acra's own asn1 package; byte flips exercise the decoder), LRU eviction (cache modelled as unbounded map), history directories of v1 (C06), symlinks (paths are resolved lexically), Redis storage/backends",
+            "in-memory filesystem.Storage (harness/vh/memfs.go) and the recording wrappers stand for the OS; the v2 directory backend runs on the real file system in a deep sandbox whose parents are scanned"
+        ],
+        "assumptions": [
+            "confinement theorems: the root / key directory is an absolute path (is_rooted)",
+            "owner binding and tamper evidence are reductions: either the contexts/messages are equal or an explicit AEAD / MAC forgery witness exists",
+            "known finding v1-purpose-not-bound: v1 binds the owner id but not the key purpose"
+        ]
+    },
     "C06": {
         "domains": [
             {
